@@ -767,7 +767,7 @@ func (g *c03Gen) stmts() []*dsl.Stmt {
 func init() {
 	register(&Prop{
 		ID:   "C03",
-		Rule: "one straight-line rule of 3-10 statements over a generated host world: a pointer-injected struct with a field of every integer/unsigned/float width, string and bool, a nested struct and a nested pointer struct (two-level paths), maps (string, int8, int64 and uint16 keys; by value and by pointer), slices and arrays of several element kinds (by value, by pointer, as struct fields), plain- and pointer-injected scalars of every kind, 1-3 functions created at run time from a generated parameter-kind list (0-5 parameters mixing all numeric widths, string, bool) and a fixed method catalogue (pointer, value and three-level receivers); statements: reads reported through an observer, stores with = and := of in-range values (literal boundaries of the target width, locals, arithmetic, other fields; cross-class only into struct fields and pointer-injected scalars; compound stores), element access with literal, string and variable keys of another width, calls with literal/variable/field/element/expression arguments, stores through non-addressable injections; oracle = reference interpreter over an independent copy of the world: the observer log (values read, arguments received, results), error-ness and the complete final host world must agree. Non-trivial: the program contains a width-changing or class-crossing store, a two-level path, a variable key of another width, or a call with >= 2 parameters of different classes; distinct by case hash",
+		Rule: "one straight-line rule of 3-10 statements over a generated host world: a pointer-injected struct with a field of every integer/unsigned/float width, string and bool, a nested struct and a nested pointer struct (two-level paths), maps (string, int8, int64 and uint16 keys; by value and by pointer), slices and arrays of several element kinds (by value, by pointer, as struct fields), plain- and pointer-injected scalars of every kind, 1-3 functions created at run time from a generated parameter-kind list (0-5 parameters mixing all numeric widths, string, bool) and a fixed method catalogue (pointer, value and three-level receivers); statements: reads reported through an observer, stores with = and := of in-range values (literal boundaries of the target width, locals, arithmetic, other fields; cross-class only into struct fields and pointer-injected scalars; compound stores), element access with literal, string and variable keys of another width, calls with literal/variable/field/element/expression arguments, stores through non-addressable injections; oracle = reference interpreter over an independent copy of the world: the observer log (values read, arguments received, results), error-ness and the complete final host world must agree. Between two executions on the same data context the host may change fields and elements, re-inject functions with other parameter kinds, append to the pointer-injected slice (reallocation) and assign a fresh map to the pointer-injected map variable. Non-trivial: the program contains a width-changing or class-crossing store, a two-level path, a variable key of another width, or a call with >= 2 parameters of different classes; distinct by case hash",
 		New:  func() interface{} { return &C03Case{} },
 		Gen: func(t *rapid.T) interface{} {
 			c := &C03Case{World: genC03World(t)}
